@@ -138,7 +138,7 @@ theorem g_alloc_array (n cfg : Int) (hc : 0 ≤ cfg) (hc2 : cfg ≤ 2147483647)
     (h : guard_alloc_empty_array n cfg = false) : n ≤ cfg := by
   simp [guard_alloc_empty_array, truncU64] at h; omega
 
-theorem g_alloc_array' (n cfg : Int) (hc : 0 ≤ cfg) (hc2 : cfg ≤ 2147483647)
+theorem g_alloc_array_n (n cfg : Int) (hc : 0 ≤ cfg) (hc2 : cfg ≤ 2147483647)
     (h : guard_alloc_array n cfg = false) : n ≤ cfg := by
   simp [guard_alloc_array, truncU64] at h; omega
 
